@@ -164,6 +164,96 @@ func (c *Ctx) tlPrimitives() {
 			}
 		})
 		c.check(len(mods) >= 1 && allEq(mods, 4), R, s.rel+"."+s.name+" pads to 4", f.Pos(), "padding modulus 4", fmt.Sprintf("%s.%s pads to a multiple of %v, TL requires 4", s.rel, s.name, mods))
+		// a writer that appends make([]byte, K - len%M) pads by the complement: K == M, and only
+		// when the remainder is not zero (otherwise a whole extra word is added)
+		allInstrs(f, func(b *ssa.BasicBlock, i ssa.Instruction) {
+			mk, ok := i.(*ssa.MakeSlice)
+			if !ok {
+				return
+			}
+			sub, ok := mk.Len.(*ssa.BinOp)
+			if !ok || sub.Op != token.SUB {
+				return
+			}
+			k, ok1 := constInt(sub.X)
+			rem, ok2 := sub.Y.(*ssa.BinOp)
+			if !ok1 || !ok2 || rem.Op != token.REM {
+				return
+			}
+			m, _ := constInt(rem.Y)
+			guarded := false
+			for _, ft := range factsAt(f, b) {
+				if cmp, ok := ft.Cond.(*ssa.BinOp); ok && cmp.X == ssa.Value(rem) {
+					if z, ok := constInt(cmp.Y); ok && z == 0 && (cmp.Op == token.NEQ) == ft.Truth {
+						guarded = true
+					}
+				}
+			}
+			c.check(k == m && guarded, R, s.rel+"."+s.name+" pads by the complement of the remainder", mk.Pos(), fmt.Sprintf("make(%d - len%%%d) under remainder != 0", k, m), fmt.Sprintf("%s.%s appends %d - len%%%d zero bytes (under remainder != 0: %v): the padding must be modulus minus remainder, and only when the remainder is not zero, otherwise the string does not end on a 4-byte boundary", s.rel, s.name, k, m, guarded))
+		})
+	}
+	// boolTrue#997275b5 / boolFalse#bc799737: the reflection decoder sets the value the id names
+	if f := c.fn("tl", "decode"); f != nil {
+		got := map[int64]bool{}
+		for _, cl := range callsTo(f, "reflect.Value.SetBool") {
+			v, ok := constBool(cl.Call.Args[1])
+			if !ok {
+				continue
+			}
+			for _, ft := range factsAt(f, cl.Block()) {
+				if bo, ok := ft.Cond.(*ssa.BinOp); ok && bo.Op == token.EQL && ft.Truth {
+					if k, ok := constInt(bo.Y); ok && k > 1<<24 {
+						got[k] = v
+					}
+				}
+			}
+		}
+		if len(got) > 0 {
+			tv, okT := got[0x997275b5]
+			fv, okF := got[0xbc799737]
+			c.check(okT && okF && tv && !fv && len(got) == 2, R, "tl.decode: boolTrue#997275b5 -> true, boolFalse#bc799737 -> false", f.Pos(), "both ids, right values", fmt.Sprintf("tl.decode maps Bool constructor ids to values as %v; lite_api.tl has boolTrue#997275b5 and boolFalse#bc799737", fmtBoolMap(got)))
+		}
+	}
+	// tags are written in the schema as big-endian hex and travel little-endian: both helpers of
+	// the reflection codec reverse the four decoded bytes, each exactly once
+	for _, name := range []string{"encodeTag", "compareWithTag"} {
+		f := c.fn("tl", name)
+		if f == nil {
+			continue
+		}
+		perm := map[int64]int64{}
+		allInstrs(f, func(_ *ssa.BasicBlock, i ssa.Instruction) {
+			st, ok := i.(*ssa.Store)
+			if !ok {
+				return
+			}
+			dst, ok := st.Addr.(*ssa.IndexAddr)
+			if !ok {
+				return
+			}
+			di, ok := constInt(dst.Index)
+			if !ok {
+				return
+			}
+			ld, ok := st.Val.(*ssa.UnOp)
+			if !ok {
+				return
+			}
+			src, ok := ld.X.(*ssa.IndexAddr)
+			if !ok {
+				return
+			}
+			if si, ok := constInt(src.Index); ok {
+				perm[di] = si
+			}
+		})
+		okv := len(perm) == 4
+		for i := int64(0); i < 4; i++ {
+			if perm[i] != 3-i {
+				okv = false
+			}
+		}
+		c.check(okv, R, "tl."+name+" reverses the four tag bytes", f.Pos(), "out[i] = in[3-i]", fmt.Sprintf("tl.%s arranges the decoded tag bytes as %v (out index -> in index); a constructor id written big-endian in the schema is sent little-endian, i.e. out[i] = in[3-i]", name, perm))
 	}
 	c.tlKindTable()
 }
@@ -391,4 +481,17 @@ func keysOfBool(m map[string]bool) []string {
 	}
 	sort.Strings(ks)
 	return ks
+}
+
+func fmtBoolMap(m map[int64]bool) string {
+	var ks []int64
+	for k := range m {
+		ks = append(ks, k)
+	}
+	sort.Slice(ks, func(i, j int) bool { return ks[i] < ks[j] })
+	var out []string
+	for _, k := range ks {
+		out = append(out, fmt.Sprintf("%08x->%v", k, m[k]))
+	}
+	return strings.Join(out, " ")
 }
